@@ -58,6 +58,16 @@ def build_g5(V):
                     break
         else:
             decl = ""
+            # an error in a table line of a shard: `R::<T, DT>` requires the derived ε-copy type of T to be DT, the type
+            # the specification's DeserShape predicts
+            try:
+                tl = open(fn if os.path.isabs(fn) else os.path.join(HARNESS, fn)).read().splitlines()[line - 1]
+                mm = re.search(r'\(\("([^"]+)"', tl)
+                if mm:
+                    name = mm.group(1)
+                    decl = f"ε-copy type of {name} (R::<T, DeserType> in the generated table)"
+            except (OSError, IndexError):
+                pass
         if name in seen:
             continue
         seen.add(name)
